@@ -25,11 +25,12 @@ def run(ctx):
     ctx.build()
     binary = build_cli(ctx)
     mc = ctx.tlc("Cli", "MC_Cli_" + ctx.tier, coverage="separate",
-                 required_actions=["AddMode", "SetBrief", "SetPretty", "SetOutfile", "SetFeatures", "SetInput", "SetSymbols", "Run"], timeout=3000)
+                 required_actions=["AddMode", "SetBrief", "SetPretty", "SetOutfile", "SetFeatures", "SetInput", "SetSymbols", "SetRfa", "SetSink", "SetLog", "Run"], timeout=3000)
     if mc.violated:
         raise core.ToolFailure("design-level invariant %s of Cli.tla is violated in the model" % mc.violated)
     rep = ctx.read_harness_report(ctx.harness("replay_cli", [mc.out_path, binary, ctx.work / "cli"], out_name="replay_cli.out", timeout=3000))
-    for need in ("exit:zero", "exit:one", "exit:usage", "input:valid", "input:missing", "input:directory", "input:empty", "input:notadump", "input:unprocessable"):
+    for need in ("exit:zero", "exit:one", "exit:usage", "input:valid", "input:missing", "input:directory", "input:empty", "input:notadump", "input:unprocessable",
+                 "symbols:http_cache", "symbols:http_default", "symbols:both", "sink:cyborg_bad", "sink:outfile_bad", "logf:ok:log", "logf:bad:stderr"):
         if rep["classes"].get(need, 0) == 0:
             raise core.ToolFailure("vacuous replay: class %s never exercised" % need)
     cov = {
@@ -39,13 +40,13 @@ def run(ctx):
         "evaluations": rep["evaluations"], "distinct_nontrivial": rep["distinct_nontrivial"],
         "rule": "every set of <= 2 mode flags x --brief x --pretty x --output-file x input class {valid (repository samples and generated dumps, rotating), "
                 "readable but unprocessable, not a dump, empty, missing, directory}, plus --features values and positional / --symbols-path / both symbol "
-                "arguments for the single-mode cases; non-trivial = distinct invocation",
+                "arguments for the single-mode cases, --recover-function-args, --symbols-url with explicit and default cache directories, sinks that cannot be created (--cyborg, --output-file), --log-file creatable or not; non-trivial = distinct invocation",
         "tlc": {"Cli": mc.as_dict()}, "replay_classes": rep["classes"],
     }
     return ctx.finish("model_checking", cov, assumptions=[
         "the option machine is exhaustive; input files are sampled (corpus dumps, repository samples)",
         "the --dump token is the library's per-stream prints in the CLI's documented order (frozen transcription in replay_cli.rs)",
-        "runs are non-interactive (no TTY); --log-file, --symbols-url and local debuginfo are not exercised"])
+        "runs are non-interactive (no TTY); --symbols-url is exercised against an unreachable server with the file already cached (explicit and default cache / tmp directories); local debuginfo is not exercised"])
 
 
 def replay(ctx, path):
